@@ -4,6 +4,7 @@ from pyvc.run import Prop
 from pyvc.contracts import REGISTRY
 import contracts  # noqa
 from contracts.dt_insv_vars import KEYS, AWP_KEYS, VALUE
+from contracts.dt_sort import REV
 from native import c10 as native_c10
 
 WB = 'DocumentTemplate.DT_In.InClass.renderwb'
@@ -63,8 +64,9 @@ def _structural():
 
 PROP = Prop(
     'C10',
-    contracts=[REGISTRY[k] for k in LOOPS] + [REGISTRY[k] for k in KEYS.values()] + [REGISTRY[k] for k in AWP_KEYS] + [REGISTRY[VALUE]],
-    claims=['*C10.*', '*.cover.*', WOB + '*::ensures.stack', WOB + '*::exc_ensures.stack', WB + '*::ensures.stack',
+    contracts=[REGISTRY[k] for k in LOOPS] + [REGISTRY[k] for k in KEYS.values()] + [REGISTRY[k] for k in AWP_KEYS] + [REGISTRY[VALUE]]
+    + [REGISTRY[k] for k in REV],
+    claims=['*C10.*', '*.cover.*', '*reverse_sequence#*::C13.*', '*::cut_sorted.C13.*', WOB + '*::ensures.stack', WOB + '*::exc_ensures.stack', WB + '*::ensures.stack',
             WB + '*::exc_ensures.stack'],
     structural=[_structural],
     native_default=native_c10.native_for,
